@@ -245,7 +245,7 @@ def make_body(n_trials, n_workers, allow_crash, with_ask, full=False):
             if kind == "running+beat+isretry":
                 # a retry of an (imaginary) earlier trial 100+i that has been claimed and is now running
                 tmpl = optuna.create_trial(state=TrialState.WAITING, user_attrs={"u": i},
-                                           system_attrs={"failed_trial": 100 + i, "retry_history": [100 + i], "fixed_params": {"x": 0.25}})
+                                           system_attrs={"failed_trial": 100 + i, "retry_history": [100 + i], "fixed_params": {"x": 0.25, "y": 0.75}})
                 tid = storage.create_new_trial(study._study_id, tmpl)
                 assert storage.set_trial_state_values(tid, TrialState.RUNNING)
                 t = optuna.Trial(study, tid)
@@ -265,6 +265,8 @@ def make_body(n_trials, n_workers, allow_crash, with_ask, full=False):
                 stale_cond[t.number] = (storage.now - storage.beats[t._trial_id]) > eff_grace
         before = {t.number: (t.state, dict(t.params), dict(t.user_attrs), dict(t.distributions), dict(t.intermediate_values))
                   for t in storage.get_all_trials(study._study_id)}
+        # queued parameter values the dead worker had not drawn yet (here 'y') exist only in the trial's fixed_params
+        before_fixed = {t.number: dict(t.system_attrs["fixed_params"]) for t in storage.get_all_trials(study._study_id) if "fixed_params" in t.system_attrs}
         sched = Sched(allow_crash=allow_crash)
         raw = storage
         study._storage = StepwiseHB(raw, sched)
@@ -319,6 +321,9 @@ def make_body(n_trials, n_workers, allow_crash, with_ask, full=False):
             assert r.state in (TrialState.WAITING, TrialState.RUNNING)
             assert dict(r.params) == before[src][1] and dict(r.distributions) == before[src][3], "retry lost params/distributions"
             assert {k: v for k, v in r.user_attrs.items()} == before[src][2], "retry lost user attrs"
+            if src in before_fixed:
+                assert r.system_attrs.get("fixed_params") == before_fixed[src], \
+                    f"retry lost the queued parameter values its predecessor had not drawn yet: {r.system_attrs.get('fixed_params')} vs {before_fixed[src]}"
             assert dict(r.intermediate_values) == (before[src][4] if inherit else {}), "intermediate values inheritance"
             sx.reach("retry-checked")
         for num in calls:
